@@ -106,7 +106,7 @@ pub fn json_entries(bytes: &[u8]) -> Result<u32, (String, String)> {
 
 // ------------------------------------------------------------------------------ document sets
 
-fn base_values(tier: Tier) -> Vec<V> {
+pub fn base_values(tier: Tier) -> Vec<V> {
     let mut v: Vec<V> = vec![];
     let sc = u::scalars(Tier::Quick);
     // one scalar per (kind, shape) class
@@ -141,6 +141,11 @@ pub struct Tables {
     splice: Vec<Vec<u8>>,
     rdocs: Vec<Vec<u8>>,
     long: Vec<Vec<u8>>,
+    /// short documents for the all-256-bytes substitution / insertion sweep, with prefix sums
+    sub_docs: Vec<Vec<u8>>,
+    sub_prefix: Vec<u64>,
+    jsub_docs: Vec<Vec<u8>>,
+    jsub_prefix: Vec<u64>,
 }
 
 fn mutants_of(len: usize, alpha: usize) -> u64 {
@@ -296,6 +301,13 @@ pub fn tables(tier: Tier) -> &'static Tables {
                 long.push(wrap("ver:\"3.0\"\na,b\n", ",1\n2,3\n"));
             }
         }
+        // timestamps whose wall clock falls into the skipped / repeated hour of their zone, with
+        // agreeing and disagreeing offsets (Zinc, in a list, in a cell)
+        for (text, city, _) in crate::model::time_ref::transition_texts() {
+            long.push(format!("{text} {city}").into_bytes());
+            long.push(format!("[{text} {city},1]").into_bytes());
+            long.push(format!("ver:\"3.0\"\nts\n{text} {city}\n").into_bytes());
+        }
         // long names: tags, columns, dict keys
         for n in (1..=72usize).chain([127, 128, 129, 255, 256, 257, 1000]) {
             let name = "a".repeat(n);
@@ -305,8 +317,23 @@ pub fn tables(tier: Tier) -> &'static Tables {
             long.push(format!("ver:\"3.0\"\n{}\n", (0..n).map(|i| format!("c{i}")).collect::<Vec<_>>().join(",")).into_bytes());
             long.push(format!("ver:\"3.0\"\na\n{}\n", ",".repeat(n)).into_bytes());
         }
-        let jstructural: Vec<Vec<u8>> = super::c10::json_docs().into_iter().map(|d| d.into_bytes()).collect();
-        Tables { zdocs, zmut_prefix: zp, jdocs, jmut_prefix: jp, structural: structural_docs(), jstructural, splice, rdocs, long }
+        let mut jstructural: Vec<Vec<u8>> = super::c10::json_docs().into_iter().map(|d| d.into_bytes()).collect();
+        for (text, city, _) in crate::model::time_ref::transition_texts() {
+            jstructural.push(format!("{{\"_kind\":\"dateTime\",\"val\":\"{text}\",\"tz\":\"{city}\"}}").into_bytes());
+        }
+        let limit = tier.pick(14usize, 40);
+        let sub_docs: Vec<Vec<u8>> = zdocs.iter().filter(|d| d.len() <= limit).cloned().collect();
+        let mut sub_prefix = vec![0u64];
+        for d in &sub_docs {
+            sub_prefix.push(sub_prefix.last().unwrap() + (2 * d.len() as u64 + 1) * 256);
+        }
+        let jlimit = tier.pick(24usize, 48);
+        let jsub_docs: Vec<Vec<u8>> = jdocs.iter().filter(|d| d.len() <= jlimit).cloned().collect();
+        let mut jsub_prefix = vec![0u64];
+        for d in &jsub_docs {
+            jsub_prefix.push(jsub_prefix.last().unwrap() + (2 * d.len() as u64 + 1) * 256);
+        }
+        Tables { sub_docs, sub_prefix, jsub_docs, jsub_prefix, zdocs, zmut_prefix: zp, jdocs, jmut_prefix: jp, structural: structural_docs(), jstructural, splice, rdocs, long }
     })
 }
 
@@ -531,6 +558,8 @@ fn jobs(tier: Tier) -> Vec<(&'static str, u64, u64)> {
         ("struct", t.structural.len() as u64, 1 << 12),
         ("jstruct", t.jstructural.len() as u64, 1 << 12),
         ("long", t.long.len() as u64, 1 << 13),
+        ("zsub", *t.sub_prefix.last().unwrap(), 1 << 18),
+        ("jsub", *t.jsub_prefix.last().unwrap(), 1 << 18),
         ("splice", t.splice.len() as u64, 1 << 16),
         ("nest8", nd * NEST_PATTERNS as u64, 64),
         ("nest2", nd * NEST_PATTERNS as u64, 64),
@@ -569,6 +598,23 @@ pub fn job_input(job: &str, tier: Tier, ord: u64) -> Input {
         "struct" => Input::Zinc(t.structural[ord as usize].clone()),
         "jstruct" => Input::Json(t.jstructural[ord as usize].clone()),
         "long" => Input::Zinc(t.long[ord as usize].clone()),
+        "zsub" | "jsub" => {
+            // every byte value substituted at, and inserted before, every position (and appended)
+            let (docs, prefix) = if job == "zsub" { (&t.sub_docs, &t.sub_prefix) } else { (&t.jsub_docs, &t.jsub_prefix) };
+            let (i, k) = locate(prefix, ord);
+            let mut d = docs[i].clone();
+            let (pos, byte) = ((k / 256) as usize, (k % 256) as u8);
+            if pos < d.len() {
+                d[pos] = byte;
+            } else {
+                d.insert(pos - docs[i].len(), byte);
+            }
+            if job == "zsub" {
+                Input::Zinc(d)
+            } else {
+                Input::Json(d)
+            }
+        }
         "splice" => Input::Zinc(t.splice[ord as usize].clone()),
         "nest8" | "nest2" => {
             let depths = nest_depths();
@@ -762,7 +808,7 @@ pub fn child_params(job: &str) -> (u64, u64, usize) {
 
 pub fn run(tier: Tier) -> i32 {
     let mut run = Run::new("C03", tier, "fault_enumeration");
-    run.rule = "inputs: every byte string <= 2/3 over all 256 bytes, every string <= 4/5 over the 27-byte token alphabet (Zinc) and a 23-byte JSON alphabet; every prefix, substitution (by each alphabet byte), deletion, duplication and insertion at every position of grammar documents (canonical and 1-deviation spellings of one value per shape class + containers); token-boundary splices of 40 documents; structural damage (rows with 0..n+3 cells, unterminated constructs at every position, header damage; Hayson: every kind tag with every member drawn from 19 fields of right and wrong JSON types, grid parts of the wrong type); long tokens (24 token kinds x every body length 1..72, 100, 127..129, 255..257, 300, 1000, 4096, plain and with a 2-/3-/4-byte character or 0xFF in the middle / at the end, alone and inside list, dict, grid; long tag / column names, 1..1000 columns, 1..1000 empty cells; all sequences of <= 3 \\uXXXX escapes over 11 code units incl. every surrogate combination); nesting depth 1..256 and 2^k(+1) up to 131072 and 10^5 for 12 nesting patterns on 8 MiB and 2 MiB stacks; reader scripts (deliver/Interrupted/error/EOF/1 byte at every read call) with <= 2 deviations (<= 4 for documents <= 12 bytes) over 41 hand-written documents (every construct with blanks, line endings, escapes, look-ahead) + 150/2000 documents spread over the grammar set. Entry points: from_str, Parser::make+parse_value, parse_grid, parse_grid_iterator (driven to the first error), serde_json from_str/from_slice for Value and 16 typed values, from_value. non-trivial = distinct input of >= 2 bytes (first 64 bytes)".into();
+    run.rule = "inputs: every byte string <= 2/3 over all 256 bytes, every string <= 4/5 over the 27-byte token alphabet (Zinc) and a 23-byte JSON alphabet; every prefix, substitution (by each alphabet byte), deletion, duplication and insertion at every position of grammar documents (canonical and 1-deviation spellings of one value per shape class + containers); every one of the 256 byte values substituted at and inserted before every position of the short documents (Zinc <= 14/40 bytes, Hayson <= 24/48 bytes); token-boundary splices of 40 documents; structural damage (rows with 0..n+3 cells, unterminated constructs at every position, header damage; Hayson: every kind tag with every member drawn from 19 fields of right and wrong JSON types, grid parts of the wrong type); long tokens (24 token kinds x every body length 1..72, 100, 127..129, 255..257, 300, 1000, 4096, plain and with a 2-/3-/4-byte character or 0xFF in the middle / at the end, alone and inside list, dict, grid; timestamps with the wall clock in the skipped / repeated hour of 18 zones under agreeing and disagreeing offsets (Zinc and Hayson); long tag / column names, 1..1000 columns, 1..1000 empty cells; all sequences of <= 3 \\uXXXX escapes over 11 code units incl. every surrogate combination); nesting depth 1..256 and 2^k(+1) up to 131072 and 10^5 for 12 nesting patterns on 8 MiB and 2 MiB stacks; reader scripts (deliver/Interrupted/error/EOF/1 byte at every read call) with <= 2 deviations (<= 4 for documents <= 12 bytes) over 41 hand-written documents (every construct with blanks, line endings, escapes, look-ahead) + 150/2000 documents spread over the grammar set. Entry points: from_str, Parser::make+parse_value, parse_grid, parse_grid_iterator (driven to the first error), serde_json from_str/from_slice for Value and 16 typed values, from_value. non-trivial = distinct input of >= 2 bytes (first 64 bytes)".into();
     run.assume("a case that does not finish within 6 s is a hang (cases take microseconds); hangs and crashes are confirmed by re-running the case in a fresh single-step child");
     run.assume("each case runs in a child process: abort, stack overflow and allocation failure are observed through the exit status");
     crate::engine::quiet_panics();
